@@ -48,6 +48,9 @@ pub fn parse_csv_row(row: &str) -> Vec<String> {
         let end = match result {
             ReadFieldResult::InputEmpty => true,
             ReadFieldResult::Field { .. } => false,
+            // The previous field consumed the whole input (i.e., the row ends with a
+            // delimiter followed by an empty cell); there is no further cell.
+            ReadFieldResult::End if !features.is_empty() => break,
             ReadFieldResult::End => true,
             _ => unreachable!(),
         };
